@@ -182,8 +182,16 @@ def register_enum(path, name):
 
 
 class Executor:
-    def __init__(self, fn, ctx=None, loop_bound=None, models=None, max_nodes=60000, named_consts=None):
+    def __init__(self, fn, ctx=None, loop_bound=None, models=None, max_nodes=60000, named_consts=None,
+                 inline=None, initial=None, depth=0):
+        """inline: optional callable(callee_text) -> Fn | None.  A call whose first argument is
+        the function's own `self` and for which it returns a (small, loop-free) function is
+        executed in place of being an uninterpreted event, so that a store moved into a private
+        helper of the same type is still seen (behaviour-preserving 'extract method')."""
         self.fn = fn
+        self.inline = inline
+        self.depth = depth
+        self.entry = ("true", {})
         self.named_consts = named_consts if named_consts is not None else NAMED_CONSTS
         self.ctx = ctx or Ctx()
         self.loop_bound = loop_bound or (lambda fn, header: 2)
@@ -191,7 +199,7 @@ class Executor:
         self.events = []
         self.max_nodes = max_nodes
         self.ret_events = []
-        self.initial = {}    # place / discr(place) -> Val at function entry (path independent)
+        self.initial = initial if initial is not None else {}    # place / discr(place) -> Val at function entry (path independent)
         self.stats = {"nodes": 0, "stmts": 0, "calls": 0}
 
     # ------------------------------------------------------------ CFG + unrolling
@@ -705,6 +713,30 @@ class Executor:
             if is_ref_write:
                 self.events.append(Event("write", guard, node, place=c, value=None, text=rv))
             return True
+        # plain struct literal `path::Name { a: op, b: op }`: fields by position (declaration
+        # order), so that what a message is built from can be compared with its source
+        m = re.match(r"^[A-Za-z_][\w:]*(?:::<.*>)? \{ (.*) \}$", rv)
+        if m and "{closure@" not in rv:
+            parts = [p for p in split_top(m.group(1), ", ") if ": " in p]
+            self.kill(env, c)
+            env[c] = Val(self.ctx.sym("agg." + c, 64), 64)
+            for i, p in enumerate(parts):
+                op = p.split(": ", 1)[1].strip()
+                try:
+                    v, src = self.operand(env, op)
+                except Unsupported:
+                    continue
+                if src is not None:
+                    self.copy_tree(env, src, "%s.%d" % (c, i))
+                    k = "discr(%s)" % src
+                    if k in env:
+                        env["discr(%s.%d)" % (c, i)] = env[k]
+                    if v.ref is None:
+                        env["alias(%s.%d)" % (c, i)] = Val(None, None, ref=self.alias_resolve(env, src))
+                env["%s.%d" % (c, i)] = v
+            if is_ref_write:
+                self.events.append(Event("write", guard, node, place=c, value=None, text=rv))
+            return True
         # struct / closure / enum struct-variant / array: opaque, fields by position when listed
         if re.match(r"^(\{closure@|\[|[\w:<>, &'\[\]()]+\s*\{|[\w:<>, &']+::\w+(\(|$)|[A-Z]\w*\(.*\)$|[A-Za-z_][\w:]*::<[^()]*>\(.*\)$|[\w:<>, &']+$)", rv):
             self.kill(env, c)
@@ -746,6 +778,8 @@ class Executor:
         ev = Event("call", guard, node, callee=callee, args=args, dest=dest, bb=node[0], env=dict(env))
         self.events.append(ev)
         handled = False
+        if self.inline is not None and self.depth < 2 and args and self.is_self_arg(args[0]):
+            handled = self.inline_call(env, node, guard, ev, dest, dty)
         for pat, model in self.models:
             if re.search(pat, callee):
                 handled = model(self, env, node, guard, ev, dest, dty)
@@ -764,6 +798,61 @@ class Executor:
                 self.havoc_place(env, dest, dty)
         ev.result = env.get(dest) if dest is not None else None
         ev.result_discr = env.get("discr(%s)" % dest) if dest is not None else None
+
+    def is_self_arg(self, a):
+        v = a["val"]
+        return (a["text"].split()[-1] == "_1" and v.ref is None) or v.ref == "(*_1)"
+
+    def inline_call(self, env, node, guard, ev, dest, dty):
+        """execute a small loop-free method of the same object in place (shared heap names:
+        the callee's `(*_1)` is the caller's `(*_1)`); its events are appended with this call's
+        node, its stores land in the caller's environment, its `_0` becomes the result"""
+        cf = self.inline(ev.callee)
+        if cf is None or len(cf.blocks) > 48:
+            return False
+        sub = Executor(cf, ctx=self.ctx, loop_bound=lambda f, h: 0, models=self.models, max_nodes=2000,
+                       named_consts=self.named_consts, inline=self.inline, initial=self.initial, depth=self.depth + 1)
+        try:
+            sub.analyse_loops()
+        except Unsupported:
+            return False
+        if sub.loops:
+            return False
+        cenv = {k: v for k, v in env.items() if "(*_1)" in k}
+        for (loc, _ty), a in zip(cf.args[1:], ev.args[1:]):
+            cenv[loc] = a["val"]
+        sub.entry = (guard, cenv)
+        try:
+            sev = sub.run()
+        except Unsupported:
+            return False
+        rets = [e for e in sev if e.kind == "return"]
+        if len(rets) != 1:
+            return False
+        for e in sev:
+            if e.kind == "return":
+                continue
+            e.node = node
+            e.inlined = ev.callee
+            self.events.append(e)
+        renv = rets[0].env
+        for k in [k for k in env if "(*_1)" in k]:
+            del env[k]
+        for k, v in renv.items():
+            if "(*_1)" in k:
+                env[k] = v
+        ev.inlined_body = cf.name
+        if dest is not None:
+            self.kill(env, dest)
+            for k, v in renv.items():
+                if k == "_0":
+                    env[dest] = v
+                elif sub_of(k, "_0"):
+                    env[k.replace("_0", dest, 1)] = v
+            if dest not in env:
+                self.havoc_place(env, dest, dty, keep_sub=True)
+        self.stats["calls"] += sub.stats["calls"]
+        return True
 
     def builtin_model(self, env, node, guard, ev, dest, dty):
         callee, args = ev.callee, ev.args
@@ -831,6 +920,13 @@ class Executor:
             return True
         # ---- exact models of integer std methods
         m = re.search(r"core::num::<impl (i8|i16|i32|i64|isize|u8|u16|u32|u64|usize)>::(checked_add|checked_sub|checked_mul|saturating_add|saturating_sub|wrapping_add|wrapping_sub|min|max)$", callee)
+        if not m:
+            # std::cmp::min::<u64>(a, b) / <u64 as Ord>::min(a, b) on primitive integers
+            m2 = re.search(r"(?:std|core)::cmp::(min|max)::<(i8|i16|i32|i64|isize|u8|u16|u32|u64|usize)>$|<(i8|i16|i32|i64|isize|u8|u16|u32|u64|usize) as Ord>::(min|max)$", callee)
+            if m2:
+                ty = m2.group(2) or m2.group(3)
+                op = m2.group(1) or m2.group(4)
+                m = re.match(r"(.*)::(.*)", "%s::%s" % (ty, op))
         if m and len(args) == 2 and args[0]["val"].term and args[1]["val"].term and args[0]["val"].sort == args[1]["val"].sort == INT_W[m.group(1)]:
             ty, op = m.group(1), m.group(2)
             a, b = args[0]["val"], args[1]["val"]
@@ -921,7 +1017,7 @@ class Executor:
     def run(self):
         order = self.expand()
         fn = self.fn
-        incoming = {order[0]: [("true", {})]} if order else {}
+        incoming = {order[0]: [self.entry]} if order else {}
         ctx = self.ctx
         self.node_guard = {}
         for node in order:
